@@ -141,8 +141,14 @@ class Sib:
         return self.cache[k]
 
     def cmp(self, rule: str, construct: str, a: Optional[T], b: Optional[T], fi, hyp_a=None, hyp_b=None,
-            ignore_conj=False, frame=None, what="") -> bool:
+            ignore_conj=False, frame=None, what="", optional=False) -> bool:
         if a is None or b is None:
+            if optional:
+                # the sub-expression this instance compares is picked out structurally (ratio denominator, sum factor);
+                # when the code no longer has that shape the instance does not apply -- the whole-result siblings of
+                # the same routine still do.  Recorded, not silently dropped.
+                self.ctx.rep.note(f"{construct}: not applicable to the current shape of the code (sub-expression not found)")
+                return True
             raise AnalysisError(f"{construct}: compared quantity no longer exists (anchor vanished)")
         g = GVN(self.ev, hyp_a, ignore_conj, frame=frame)
         try:
@@ -314,33 +320,33 @@ class Sib:
         ov = self.E("cisd", "_calc_overlap_restricted")
         enf = self.E("cisd_faster", "_calc_energy_restricted")
         r_fb, r_en, r_enf = ratio_denominator(fb.result), ratio_denominator(en.result), ratio_denominator(enf.result)
-        self.cmp("SIB-2", "cisd: overlap ratio in the force bias == overlap ratio in the energy", r_fb, r_en, fb.fi)
-        self.cmp("SIB-2", "cisd_faster: overlap ratio in the energy == cisd's", r_enf, r_en, enf.fi)
+        self.cmp("SIB-2", "cisd: overlap ratio in the force bias == overlap ratio in the energy", r_fb, r_en, fb.fi, optional=True)
+        self.cmp("SIB-2", "cisd_faster: overlap ratio in the energy == cisd's", r_enf, r_en, enf.fi, optional=True)
         hyp = {shape1(sym("walker")): nelec(0)}
         self.cmp("SIB-2", "cisd: (1 + singles + doubles) of the overlap == overlap ratio of the energy",
-                 sum_factor(ov.result), r_en, ov.fi, hyp, what="walker has nelec[0] columns")
+                 sum_factor(ov.result), r_en, ov.fi, hyp, what="walker has nelec[0] columns", optional=True)
 
     def ucisd_overlap_ratio(self):
         fb = self.E("ucisd", "_calc_force_bias")
         en = self.E("ucisd", "_calc_energy")
         ov = self.E("ucisd", "_calc_overlap")
         r_fb, r_en = ratio_denominator(fb.result), ratio_denominator(en.result)
-        self.cmp("SIB-2", "ucisd: overlap ratio in the force bias == overlap ratio in the energy", r_fb, r_en, fb.fi)
+        self.cmp("SIB-2", "ucisd: overlap ratio in the force bias == overlap ratio in the energy", r_fb, r_en, fb.fi, optional=True)
         wdb = beta_walker(ov)
         hyp = {shape1(sym("walker_up")): nelec(0)}
         if wdb is not None:
             hyp[shape1(wdb)] = nelec(1)
         self.cmp("SIB-2", "ucisd: (1 + singles + doubles) of the overlap == overlap ratio of the energy",
-                 sum_factor(ov.result), r_en, ov.fi, hyp, what="walkers have nelec[s] columns")
+                 sum_factor(ov.result), r_en, ov.fi, hyp, what="walkers have nelec[s] columns", optional=True)
 
     def noci_total_overlap(self):
         no = self.E("noci", "_calc_overlap")
         nf = self.E("noci", "_calc_force_bias")
         ne = self.E("noci", "_calc_energy")
         self.cmp("SIB-2", "noci: total overlap in the force bias == _calc_overlap", no.result,
-                 ratio_denominator(nf.result), nf.fi, frame=no.frame)
+                 ratio_denominator(nf.result), nf.fi, frame=no.frame, optional=True)
         self.cmp("SIB-2", "noci: total overlap in the energy == _calc_overlap", no.result,
-                 ratio_denominator(ne.result), ne.fi, frame=no.frame)
+                 ratio_denominator(ne.result), ne.fi, frame=no.frame, optional=True)
 
     # ------------------------------------------------------- C02 energy copies
     def cisd_vs_faster(self):
@@ -352,7 +358,7 @@ class Sib:
         self.cmp("SIB-2", "cisd_faster._calc_energy_restricted == cisd._calc_energy_restricted", en.result, enf.result,
                  enf.fi, what="scan over Cholesky vectors == batched contraction")
         self.cmp("SIB-2", "cisd_faster: numerator of the energy == cisd's", _numerator(en.result), _numerator(enf.result),
-                 enf.fi)
+                 enf.fi, optional=True)
 
     def noci_vs_uhf(self):
         nd = self.E("noci", "_calc_energy_single_det")
